@@ -356,11 +356,12 @@ def analyse_function(repo: Repo, fi: FuncInfo) -> FuncAnalysis:
         for x in a.args + a.kwonlyargs:
             if x.arg == p and x.annotation is not None:
                 ann = ast.unparse(x.annotation)
-        if p == "candles":
+        ann_flat = (ann or "").replace(" ", "")
+        if p == "candles" or "List[Candle]" in ann_flat or "list[Candle]" in ann_flat or "Sequence[Candle]" in ann_flat:
             v = Obj("candles")
-        elif p in INDEX_PARAMS:
+        elif p in INDEX_PARAMS or (ann_flat in ("int", "Optional[int]", "int|None") and ("index" in p or "indx" in p or p == "idx")):
             v = Num(RAW)
-        elif p in ("candle", "candle_two"):
+        elif p in ("candle", "candle_two") or ann_flat == "Candle":
             v = Obj("candle", A("sym", p))
         elif ann and "str" in ann:
             v = Str(f"<{p}>")
